@@ -31,7 +31,7 @@ SWAPS = [("Generation", "Usage", "Invalidation"), ("Entity", "Agent"), ("Special
 
 def plan(tier, seed):
     return {
-        "cases": 5000 if tier == "quick" else 100000,
+        "cases": 5000 if tier == "quick" else 60000,
         "hashseeds": [0] if tier == "quick" else [0, 1, 2, 3],
         "timeout_s": 400 if tier == "quick" else 3400,
         "rule": "case = a c01 document d + 2 content-preserving variants + 3 single content-changing edits + 1 independent document; every "
